@@ -29,7 +29,7 @@ DECIDING_TAPS = ["feature:gradient", "feature:daisy", "feature:normalize"]
 REPLAY_PATHS = ['menpo/feature/test', 'menpo/image/test']      # suite replay (thorough tier): the repository's own tests under these monitors
 SHARDS = {"quick": 8, "thorough": 16}
 
-SAME_SIZE = {"gradient", "gaussian_filter", "igo", "es", "no_op", "normalize", "normalize_norm", "normalize_std", "normalize_var"}
+SAME_SIZE = {"gradient", "gaussian_filter", "igo", "es", "no_op", "normalize", "normalize_norm", "normalize_std", "normalize_var", "sum_channels"}
 
 
 def is_image(x):
@@ -183,6 +183,9 @@ def setup(ctx):
     for name in ("gradient", "gaussian_filter", "igo", "es", "daisy", "no_op", "normalize", "normalize_norm", "normalize_std", "normalize_var"):
         orig = getattr(F, name)
         taps.tap_everywhere(ctx, "menpo.feature.features", name, FeatureMonitor(name, orig))
+    # the visualisation feature exported next to them (an image feature like the others)
+    V = taps.mod("menpo.feature.visualize")
+    taps.tap_everywhere(ctx, "menpo.feature.visualize", "sum_channels", FeatureMonitor("sum_channels", V.sum_channels))
     # double_igo is a functools.partial bound to the original igo: rebind it to the tapped one
     from menpo.base import partial_doc
     P = taps.mod("menpo.feature.predefined")
@@ -208,7 +211,7 @@ def make_image(rng, cls, shp, C, dtype, mask_kind, constant=None):
     return im
 
 
-FEATS = ["gradient", "gaussian_filter", "igo", "double_igo", "es", "no_op", "daisy", "daisy", "compose"]
+FEATS = ["gradient", "gaussian_filter", "igo", "double_igo", "es", "no_op", "daisy", "daisy", "compose", "sum_channels"]
 
 
 def w_features(ctx, rng, i):
@@ -243,6 +246,10 @@ def w_features(ctx, rng, i):
     if fname in ("gradient", "gaussian_filter", "no_op") and rng.random() < 0.25:
         shp = tuple(int(v) for v in rng.integers(3, 12, 3))      # these features are n-dimensional
     im = make_image(rng, cls, shp, C, dtype, mk)
+    if fname == "sum_channels" and rng.random() < 0.7:
+        opts = {"channels": sorted(int(c_) for c_ in rng.choice(C, int(rng.integers(1, C + 1)), replace=False))}
+        if rng.random() < 0.3:
+            opts["channels"] = opts["channels"][::-1]
     if rng.random() < 0.08 and fname in ("gradient", "gaussian_filter", "igo", "double_igo", "es", "no_op", "compose"):
         # a few missing values in the data (a depth map with holes)
         im.pixels[rng.random(im.pixels.shape) < 0.05] = np.nan
